@@ -537,6 +537,58 @@ impl Visitor for V<'_> {
     fn register(&self, _name: &str, _mb: &[u8; 7], _r: &RegOut) {}
 }
 
+/// "A timed record keeps the input frame as hex, so decoding that hex again gives the same fields": whoever reads the
+/// record decodes the hex in ANOTHER process, with nothing decoded before. The record of frame `b` written right
+/// after frame `a` was decoded is therefore compared with what a fresh thread decodes from the record's own hex.
+fn record_after(rep: &Report, a: &[u8], b: &[u8]) -> u64 {
+    let _ = fspace::decode(a);
+    let Ok(Ok(m)) = fspace::decode(b) else { return 1 };
+    let tm = TimedMessage { timestamp: 1.5, frame: b.to_vec(), message: Some(m), metadata: vec![], decode_time: None, ..Default::default() };
+    let Ok(Ok(text)) = guarded(|| serde_json::to_string(&tm)) else { return 1 };
+    let Ok(doc) = serde_json::from_str::<Value>(&text) else { return 1 };
+    let hexframe = doc.get("frame").and_then(|x| x.as_str()).unwrap_or("").to_string();
+    let g = unhex(&hexframe);
+    let again = std::thread::spawn(move || Message::try_from(g.as_slice()).ok().and_then(|m| serde_json::to_string(&m).ok()).and_then(|t| serde_json::from_str::<Value>(&t).ok())).join().ok().flatten();
+    let Some(Value::Object(fresh)) = again else {
+        rep.violation(&format!("timed:redecode:sequence:DF{}", b[0] >> 3), format!("the record of {} (written right after {}) carries a frame that a fresh decoder rejects", hexs(b), hexs(a)), json!({"frame": hexs(b), "after": hexs(a), "group": "sequence"}));
+        return 1;
+    };
+    // every member of the freshly decoded message must be in the record with the same value, and the record must
+    // not have other members than those and the ones of the timed wrapper
+    let rec = doc.as_object().cloned().unwrap_or_default();
+    let differs = fresh.iter().find(|(k, v)| rec.get(*k) != Some(v)).map(|(k, _)| k.clone()).or_else(|| rec.keys().find(|k| !fresh.contains_key(*k) && !matches!(k.as_str(), "timestamp" | "frame" | "metadata" | "decode_time")).cloned());
+    if let Some(k) = differs {
+        rep.violation(&format!("timed:redecode:sequence:DF{}", b[0] >> 3), format!("the record of {} written right after {} was decoded says {k}={} but decoding its frame in a fresh decoder gives {}", hexs(b), hexs(a), rec.get(&k).unwrap_or(&Value::Null), fresh.get(&k).unwrap_or(&Value::Null)), json!({"frame": hexs(b), "after": hexs(a), "group": "sequence"}));
+    }
+    1
+}
+
+fn sequences(ctx: &Ctx, rep: &Report) -> u64 {
+    let bases = fspace::sequence_bases();
+    let n = std::sync::atomic::AtomicU64::new(0);
+    par_items(ctx.threads, bases.len(), |bi| {
+        let a = &bases[bi];
+        let es = a[0] >> 3 == 17 || a[0] >> 3 == 18;
+        let mut c = 0;
+        for bit in 0..a.len() * 8 {
+            let mut b = a.clone();
+            b[bit / 8] ^= 0x80 >> (bit % 8);
+            if es && bit < 88 {
+                seal(&mut b, 0);
+            }
+            c += record_after(rep, a, &b);
+            c += record_after(rep, &b, a);
+        }
+        for other in &bases {
+            c += record_after(rep, other, a);
+        }
+        n.fetch_add(c, std::sync::atomic::Ordering::Relaxed);
+    });
+    let t = n.load(std::sync::atomic::Ordering::Relaxed);
+    rep.part("records written right after a related frame was decoded, re-decoded from their hex by a fresh thread", t, json!({"base_frames": bases.len()}));
+    t
+}
+
 pub fn run(ctx: &Ctx, rep: &Report) {
     rep.set_rule("every message accepted in the shared frame space (dispatch, headers, extended-squitter windows, complete field sweeps, Comm-B frames) is serialised; non-trivial = distinct (DF, type code, member-name set) shapes observed");
     rep.assume("timed records carry two fixed, finite metadata entries (receiver metadata is produced outside the decoder)");
@@ -553,8 +605,9 @@ pub fn run(ctx: &Ctx, rep: &Report) {
         return;
     }
     let v = V { rep, shapes: Mutex::new(BTreeMap::new()) };
+    let nseq = sequences(ctx, rep);
     let c = fspace::sweep(ctx, rep, &v, false);
-    let frames = c.frames.load(std::sync::atomic::Ordering::Relaxed);
+    let frames = c.frames.load(std::sync::atomic::Ordering::Relaxed) + nseq;
     let accepted = c.accepted.load(std::sync::atomic::Ordering::Relaxed);
     let shapes = v.shapes.lock().unwrap();
     let mut per_df: BTreeMap<String, u64> = BTreeMap::new();
@@ -584,7 +637,9 @@ pub fn run(ctx: &Ctx, rep: &Report) {
 
 pub fn replay(w: &Value, rep: &Report) {
     let f = unhex(w["frame"].as_str().unwrap_or(""));
-    if let Ok(Ok(m)) = fspace::decode(&f) {
+    if let Some(a) = w.get("after").and_then(|x| x.as_str()) {
+        record_after(rep, &unhex(a), &f);
+    } else if let Ok(Ok(m)) = fspace::decode(&f) {
         judge(rep, &f, &m);
     }
     rep.trans(1);
